@@ -95,9 +95,9 @@ func c06JoinRun(t rt.TB, c c06Join) {
 }
 
 func TestC06_TeardownJoinsProducers(t *testing.T) {
-	reps := 40
+	reps := 800
 	if rt.Thorough() {
-		reps = 1500
+		reps = 20000
 	}
 	reps = reps/rt.ShardCount() + 1
 	idx := 0
